@@ -39,6 +39,7 @@ DEFAULT_PROFILE = dict(
     p_nested_ptr_arg=0.12,   # pointer-to-pointer parameter / return types, mixed constness
     p_fn_name_reuse=0.0,     # an impl function named like a function of another type (clash renaming across bases)
     p_extern_only_module=0.0,  # a module that declares nothing but extern values
+    p_vft_size_miss=0.0,     # extra weight of the near-miss "vftable #[size] below the occupied slots"
     p_big_discr=0.0,         # an enum discriminant literal in 2^63 .. 2^64-1 (pyxis reads literals as isize: a parse error today)
     # -- options of the execution oracle (tools/exec_oracle.py); off by default, and when off no random draw changes --
     addr_pool=None,          # (base, stride, count): every #[address] of an impl function, #[singleton] and extern value
@@ -506,9 +507,13 @@ class Gen:
         size_attr = ""
         if slots and not short_pad and (rng.random() < 0.25 or len(slots) != emit_pos):
             total = len(slots) + rng.choice([0, 0, 1, 3])
-            if self.want_miss() and emit_pos > 1:
-                total = emit_pos - 1
+            nfuncs = len(texts)
+            if emit_pos > 1 and (self.want_miss() or (self.p["miss"] > 0 and self.expect["miss"] is None
+                                                     and rng.random() < self.p["p_vft_size_miss"])):
+                # below the occupied slots -- and, when index gaps allow it, not below the number of declared functions
+                total = rng.randint(nfuncs, emit_pos - 1) if nfuncs <= emit_pos - 1 else emit_pos - 1
                 self.expect["miss"] = "vftable size below slots"
+                self.miss_done = True
             size_attr = "    #[size(%s)]\n" % int_lit(rng, total, self.chance("p_int_forms"))
             while len(slots) < total:
                 slots.append(None)
